@@ -64,6 +64,9 @@ func init() {
 	}
 	I[rtPkg+"Class"] = func(ex *Exec, a []Value) Value {
 		ex.classes = append(ex.classes, classPred{a[0].(string), a[1].(*Term)})
+		if !ex.sess.concrete {
+			ex.sess.ref(a[1].(*Term)) // define it in the solver context so that models can be classified
+		}
 		return nil
 	}
 	I[rtPkg+"Time"] = func(ex *Exec, a []Value) Value {
